@@ -276,6 +276,15 @@ def _acl_texts(seed, plat):
     return its
 
 
+def _append_loose(acl):
+    from cisco_acl import Ace
+
+    acl.resequence(10, 10)
+    for blk in acl.items:
+        blk.note = "block-note"
+    acl.append(Ace("deny ip any any", platform=acl.platform))
+
+
 def _acls(ctx, only, first):
     for plat in (only,):
         its = _acl_texts(ctx.seed, plat)
@@ -301,6 +310,9 @@ def _acls(ctx, only, first):
                 if not mem:
                     _copy_case("Acl", PR.header(plat) + "\n" + body, dict(platform=plat, group_by="= "),
                                ctx, prepare=lambda o: o.resequence(10, 10))
+                    # mixed: blocks plus a loose entry appended afterwards
+                    _copy_case("Acl", PR.header(plat) + "\n" + body, dict(platform=plat, group_by="= "),
+                               ctx, prepare=_append_loose)
                     _copy_case("AceGroup", "\n".join(it.text(plat) for it in lst), dict(platform=plat),
                                ctx)
     ctx.sample("acl", "item lists <= 3 over the structural alphabet, flat/grouped+numbered")
@@ -323,6 +335,8 @@ def seed_acls(seed):
                         "60 permit udp any any range 67 68"]),
         ("ios", "= ", ["remark lead", "permit 47 any any", "remark = only", "permit ip any any",
                        "permit ip any any"]),
+        # grouped, then a loose entry is appended: a mixed item list
+        ("ios", "= +loose", ["remark = a", "permit tcp any any eq 22", "remark = b", "permit icmp any any"]),
     ]
 
 
@@ -348,9 +362,14 @@ def _mk_seed(si, ctx):
             o.option.note = "option-note"
             o.protocol.note = "proto-note"
     if group_by:
-        acl.group(group_by)
+        acl.group(group_by.split("+")[0])
         for g in acl.items:
             g.note = "block-note"
+        if group_by.endswith("+loose"):
+            from cisco_acl import Ace as _Ace
+
+            loose = _Ace("deny ip any any", platform=plat, note="loose-note")
+            acl.append(loose)
     return acl
 
 
